@@ -43,7 +43,7 @@ RULE = ("whole runs: seeded configurations of harness.wholerun.make_config (plac
 
 
 VARIANTS = ["base", "noise", "fix", "mix", "two", "slowfu", "slowogi", "all", "sims2", "dates", "names", "deploy",
-            "ids", "shared", "pool6", "sims6"]
+            "ids", "shared", "pool6", "sims6", "bounds"]
 
 # audit/LESSONS.md item 2: boundary periods put into the generator on purpose (start, end); every end (month, day)
 # is not before the start's, so no trailing partial year (the planner crash recorded under C06)
@@ -88,6 +88,10 @@ def make_variant(rng, kind, quick):
         ov["ndays"] = (date(*en) - date(*st)).days + 1
     if kind in ("sims6", "pool6"):
         ov.update({"ndays": 120, "n_sites": 4})
+    if kind == "slowogi" and rng.random() < 0.5:
+        # a multi-day survey / an outstanding request straddling New Year
+        ov["start"] = [rng.choice([2022, 2023]), rng.choice([11, 12]), 1]
+        ov["ndays"] = rng.choice([200, 396])
     cfg = W.make_config(rng, **ov)
     M = cfg["methods"]
     none = {"name": "P_none", "methods": []}
@@ -95,6 +99,12 @@ def make_variant(rng, kind, quick):
         if len(cfg["programs"]) < 4:
             cfg["programs"].append({"name": "P_fix", "methods": ["FIX", "OGI_FU2"]})
     elif kind == "mix":
+        # a leak can be tagged by OGI and, while it waits for its repair, again by OGI_FU (other reporting delay)
+        M["OGI"].update({"reporting_delay": 5, "surveys_per_year": 12, "mdl": 0.125})
+        M["OGI_FU"].update({"reporting_delay": 0})
+        M["AIR"].update({"surveys_per_year": 12, "mdl": 0.5})
+        M["AIR"]["follow_up"].update({"threshold": 0.0, "delay": 0})
+        cfg["repair_delay"] = [14]
         cfg["programs"] = [{"name": "P_mix", "methods": ["OGI", "AIR", "OGI_FU"]}, none]
     elif kind == "two":
         M["AIR2"] = copy.deepcopy(M["AIR"])
@@ -114,7 +124,7 @@ def make_variant(rng, kind, quick):
     elif kind == "sims2":
         cfg["n_sims"] = 2
     elif kind == "dates":
-        cfg["consider_weather"] = True
+        cfg["consider_weather"] = rng.random() < 0.5
         cfg["weather_mode"] = "mixed"
         if len(cfg["programs"]) < 4:
             cfg["programs"].append({"name": "P_fix", "methods": ["FIX", "OGI_FU2"]})
@@ -126,7 +136,12 @@ def make_variant(rng, kind, quick):
         cfg["site_extra_cols"] = {
             "OGI_site_deployment": {i: ("False" if k % 3 == 0 else "True") for k, i in enumerate(ids)},
             "AIR_site_deployment": {i: ("False" if k % 3 == 1 else "True") for k, i in enumerate(ids)},
-            "FIX_site_deployment": {i: ("False" if k % 2 == 1 else "True") for k, i in enumerate(ids)}}
+            "FIX_site_deployment": {i: ("False" if k % 2 == 1 else "True") for k, i in enumerate(ids)},
+            # per-site survey-cost overrides next to sites that inherit the method's cost (blank cell)
+            "OGI_survey_cost": {i: (384.0 if k % 2 == 0 else "") for k, i in enumerate(ids)},
+            "OGI_FU_survey_cost": {i: (96.0 if k % 2 == 1 else "") for k, i in enumerate(ids)}}
+        M["OGI"]["cost"].update({"per_day": 0.0, "per_site": 128.0})
+        M["OGI"].update({"survey_time": 60, "surveys_per_year": 6})
         if len(cfg["programs"]) < 4:
             cfg["programs"].append({"name": "P_fix", "methods": ["FIX", "OGI_FU2"]})
     elif kind == "ids":
@@ -150,6 +165,15 @@ def make_variant(rng, kind, quick):
         cfg["_run"] = {"debug": False, "processes": 1}
     elif kind == "sims6":
         cfg["n_sims"] = 6            # batches of 5 + 1
+    elif kind == "bounds":
+        # LESSONS 3: zero and maximal parameter values
+        M["AIR"]["follow_up"].update({"proportion": 0.0, "delay": 0, "threshold": 0.0})
+        M["AIR"].update({"mdl": 0.5, "surveys_per_year": 12, "spatial": 1.0, "temporal": 1.0})
+        M["FIX"]["follow_up"].update({"delay": 0})
+        M["OGI"].update({"spatial": 1.0, "reporting_delay": 0})
+        cfg["repair_delay"] = [0]
+        if len(cfg["programs"]) < 4:
+            cfg["programs"].append({"name": "P_fix", "methods": ["FIX", "OGI_FU2"]})
     elif kind == "noise":
         # non-zero quantification error on a grid on which the float arithmetic is exact (multiples of 25 %):
         # "sample" type drawing from a file, degenerate "uniform" / "default" (normal with sd 0) types
@@ -181,16 +205,29 @@ def configs(ctx, n):
 
 
 def run_case(cfg, res, tr):
-    """-> (status, case, diffs, info)"""
+    """-> (status, case, diffs, info); status: ok | unsupported | anomaly"""
+    import traceback
+
     try:
         case = S.Case(cfg, res, tr)
+    except S.Anomaly as e:
+        return "anomaly", None, [], str(e)
     except S.Unsupported as e:
         return "unsupported", None, [], str(e)
-    out = LeanDriver("drv_sim").run(case.lines)
-    rows, recs = case.parse(out)
-    wf = out[case.head].strip().endswith("wf=1")
-    diffs = case.compare(rows, recs)
-    pk = case.check_pickle()
+    except Exception as e:  # LESSONS 7: an unexpected shape of the trace is a finding about the run, not exit 2
+        return "anomaly", None, [], "adapter could not interpret the trace: %r at %s" % (
+            e, traceback.format_exc().strip().splitlines()[-3].strip()[:160])
+    try:
+        out = LeanDriver("drv_sim").run(case.lines)
+        rows, recs = case.parse(out)
+        wf = out[case.head].strip().endswith("wf=1")
+        diffs = case.compare(rows, recs)
+        pk = case.check_pickle()
+    except core.InfraError:
+        raise
+    except Exception as e:
+        return "anomaly", None, [], "model / comparison could not be evaluated on this run: %r at %s" % (
+            e, traceback.format_exc().strip().splitlines()[-3].strip()[:160])
     if not pk[0]:
         diffs.append(("scenario-differs-from-pickle", None, pk[2], pk[1]))
     return "ok", case, diffs, {"rows": rows, "recs": recs, "wf": wf}
@@ -223,6 +260,11 @@ def analyse(ctx, cfg, res):
         kind = S.program_kind(cfg, tr["prog"])
         status, case, diffs, info = run_case(cfg, res, tr)
         inp = {"cfg": {k: v for k, v in cfg.items()}, "prog": tr["prog"], "sim": tr["sim"]}
+        if status == "anomaly":
+            ctx.count(f"anomaly:{kind}")
+            ctx.violate("SIM:anomaly:" + re.sub(r"[^a-zA-Z]+", "-", info)[:60].strip("-"),
+                        f"the run of {tr['prog']} has a shape the unchanged simulator never produces: {info}", inp)
+            continue
         if status == "unsupported":
             # outside the grids / shapes the adapter can feed to the model exactly: reported, not skipped silently
             ctx.count(f"unsupported:{kind}")
@@ -276,7 +318,7 @@ def run(ctx):
                            "computed by the model (Sim.dateOf) and compared with datetime on every run")
     core.lean_stage(ctx, MODULE, FILE, drivers=["drv_sim"])
     core.lean_stage(ctx, MODULE2, FILE2)          # C09 lifted to the integrated model
-    cfgs = configs(ctx, ctx.pick(16, 128))
+    cfgs = configs(ctx, ctx.pick(17, 136))
 
     def one(cfg):
         r = cfg.get("_run") or {}
